@@ -35,6 +35,32 @@ def diff_orient(ctx):
         dec = list(decisions)
         taken = []
         flips = {}          # column -> sign flips applied in place
+        notes = {'resampled': [], 'denser': []}
+
+        def density_test(t, d):
+            """median(diff(X.index)) OP median(diff(Y.index)) -> orientation of the denser
+            operand under decision d"""
+            if not (isinstance(t, ast.Compare) and len(t.ops) == 1):
+                return
+            sides = []
+            for side in (t.left, t.comparators[0]):
+                nm = [x for x in ast.walk(side) if isinstance(x, ast.Attribute) and
+                      x.attr == 'index' and isinstance(x.value, ast.Name)]
+                if len(nm) != 1 or 'diff' not in norm_text(side):
+                    return
+                sides.append(env.get(nm[0].value.id))
+            op = t.ops[0]
+            if isinstance(op, (ast.Lt, ast.LtE)):
+                left_denser = d
+            elif isinstance(op, (ast.Gt, ast.GtE)):
+                left_denser = not d
+            else:
+                return
+            strict = isinstance(op, (ast.Lt, ast.Gt))
+            # on the non-strict / equal side both are equally dense: either is fine
+            notes['denser'].append((sides[0] if left_denser else sides[1],
+                                    sides[1] if left_denser else sides[0],
+                                    (strict and not d) or (not strict and d)))
 
         def val(n):
             if isinstance(n, ast.Name):
@@ -70,7 +96,10 @@ def diff_orient(ctx):
                 return None
             if isinstance(n, ast.Call):
                 q = res(n.func)
-                if q in ('pyins.transform.resample_state', 'pyins.util.to_180_range') and n.args:
+                if q == 'pyins.transform.resample_state' and n.args:
+                    notes['resampled'].append(val(n.args[0]))
+                    return val(n.args[0])
+                if q == 'pyins.util.to_180_range' and n.args:
                     return val(n.args[0])
                 if isinstance(n.func, ast.Attribute) and n.func.attr in ('copy', 'reindex',
                                                                          'astype'):
@@ -122,6 +151,7 @@ def diff_orient(ctx):
                     raise _Fork()
                 d = dec.pop(0)
                 taken.append((st, d))
+                density_test(st.test, d)
                 return block(st.body if d else st.orelse)
             if isinstance(st, ast.Return):
                 return ('ret', val(st.value), st)
@@ -129,7 +159,7 @@ def diff_orient(ctx):
                 return ('raise', None, st)
             return None
         r = block(f.node.body)
-        return r, taken, flips
+        return r, taken, flips, notes
 
     # enumerate decision vectors breadth-first
     todo = [[]]
@@ -138,16 +168,16 @@ def diff_orient(ctx):
         d = todo.pop(0)
         seen += 1
         try:
-            r, taken, flips = run(d)
+            r, taken, flips, notes = run(d)
         except _Fork:
             todo.append(d + [True])
             todo.append(d + [False])
             continue
         if r is not None:
-            paths.append((d, r, taken, flips))
+            paths.append((d, r, taken, flips, notes))
     rets = [p for p in paths if p[1][0] == 'ret']
     ctx.floor('DIFF-ORIENT', len(rets), 3, 'returning paths')
-    for d, (kind, v, node), taken, flips in rets:
+    for d, (kind, v, node), taken, flips, notes in rets:
         desc = ' / '.join('%s=%s' % (norm_text(t.test)[:50], dd) for t, dd in taken)
         ok = v == (1, -1)
         ctx.ob('DIFF-ORIENT', ok, None, 'path [%s] returns +first -second' % desc, f=f,
@@ -155,6 +185,25 @@ def diff_orient(ctx):
                why='on the path [%s] the result is %s*first + %s*second: the difference is not '
                    'antisymmetric / has the wrong sign' % (
                        desc, *(v if isinstance(v, tuple) and len(v) == 2 else ('?', '?'))))
+    # the interpolated operand is the one sampled more densely
+    ctx.rule('DIFF-DENSER', 'on every path that interpolates, the interpolated operand is the one '
+             'with the smaller median sampling interval (so that a table against a sub-sampling '
+             'of itself is evaluated at original rows only)')
+    n_d = 0
+    for d, (kind, v, node), taken, flips, notes in rets:
+        for rs in notes['resampled']:
+            for denser, sparser, tie in notes['denser']:
+                n_d += 1
+                ok = rs == denser or tie
+                desc = ''.join('T' if x else 'F' for x in d)
+                ctx.ob('DIFF-DENSER', ok, None,
+                       'path %s: resampled operand %s is the denser one' % (desc, rs), f=f,
+                       node=node, key='denser-' + desc,
+                       why='on path %s the operand with the LARGER sampling interval is '
+                           'interpolated onto the time index of the denser one: interpolation '
+                           'error enters the difference (a table against a sub-sampling of itself '
+                           'is no longer exactly zero)' % desc)
+    ctx.floor('DIFF-DENSER', n_d, 2, 'interpolating paths')
     # position columns: lat, lon scaled positively, alt negatively (down = -alt), renamed
     any_flips = [p[3] for p in rets if p[3]]
     if any_flips:
